@@ -1,1 +1,9 @@
-
+//! wasmgen: typed Wasm module generator, binary encoder, reference interpreter, reference
+//! validator and independent cost tables. No dependency on `/repo`.
+pub mod ast;
+pub mod cost;
+pub mod encode;
+pub mod gen;
+pub mod interp;
+pub mod hostmodel;
+pub mod util;
